@@ -42,6 +42,16 @@ SIMPLE = [">=3.7", ">3.7", "<3.7", "<=3.7", "==3.7", "!=3.7", "~=3.7", "==3.*", 
           ">=3.10.0", "==3.10.0", "!=3.10.0", "<3.10.0", "<=3.20.0", ">3.0.0", ">=3.10", "<3.100.0", "==3.10.*", "~=3.10.0",
           "!=3.0.*", "==3.0.*", "!=3.7.0.*", "==3.7.0.*", "~=3.7.0"]
 
+# structured family: two-sided ranges over every combination of bound spellings (segment counts differ between the bounds, trailing zeros,
+# one-segment bounds) — the shapes the shortened renderings (`~=`, `==X.*`) are computed from
+for _lo in ("3", "3.7", "3.7.0", "3.7.2"):
+    for _hi in ("3.8", "3.8.0", "4", "4.0", "4.0.0", "3.7.3", "3.10", "3.10.0"):
+        for _o1 in (">=", ">"):
+            for _o2 in ("<", "<="):
+                _t = f"{_o1}{_lo},{_o2}{_hi}"
+                if _t not in SIMPLE:
+                    SIMPLE.append(_t)
+
 
 def run(chk):
     chk.explanation = (
